@@ -24,8 +24,8 @@ CONSTANTS EnumTypes,     \* subset of Types
           ElIdx,         \* sequence of [field, rel, col]: per-element row lists; col = columns of that element type
           HasDefs        \* TRUE iff some stage has a "def" conclusion (the theory uses `!`)
 Rec == ndJsonDeserialize(IOEnv.TRACE)
-VARIABLES l, ref, prev, eqSince, chase, gens, cnt0, cls0, lastObs, viol, stats
-vars == <<l, ref, prev, eqSince, chase, gens, cnt0, cls0, lastObs, viol, stats>>
+VARIABLES l, ref, prev, eqSince, chase, gens, cnt0, cls0, lastObs, viol, stats, callers, famFirst
+vars == <<l, ref, prev, eqSince, chase, gens, cnt0, cls0, lastObs, viol, stats, callers, famFirst>>
 ToSet(s) == {s[i] : i \in DOMAIN s}
 NoDupSeq(s) == Len(s) = Cardinality(ToSet(s))
 
@@ -94,8 +94,11 @@ QueriesBad(st, rels) ==
           ELSE LET q == ToSet(st.q[r])
                    n == Len(Arity[r])
                IN IF r \in Funcs
-                  THEN (IF /\ \A t \in q : CanonBy(O, r, t) \in OTup(O, r)
-                           /\ \A u \in O.tup[r] : u \in q \/ CanonBy(O, r, u) # u
+                  THEN \* while a close is running a function may still be multi-valued (functionality is a
+                       \* rule like the others): evaluation must return one of the values and be defined
+                       \* wherever the graph has a tuple
+                       (IF /\ \A t \in q : CanonBy(O, r, t) \in OTup(O, r)
+                           /\ \A u \in O.tup[r] : CanonBy(O, r, u) # u \/ \E t \in q : \A i \in 1..(n - 1) : t[i] = u[i]
                            /\ \A t1, t2 \in q : (\A i \in 1..(n - 1) : t1[i] = t2[i]) => t1 = t2
                            /\ \A t \in q : \A i \in 1..(n - 1) : \A x \in OIds(O, Arity[r][i]) :
                                  O.rep[Arity[r][i]][x] = O.rep[Arity[r][i]][t[i]] => [t EXCEPT ![i] = x] \in q
@@ -209,11 +212,27 @@ RetBad(e) ==
           \cup (IF HasDefs \/ (\A T \in Types : O.cnt[T] = cnt0[T] /\ Classes(O, T) <= cls0[T]) THEN {}
                 ELSE {[prop |-> "C06", what |-> "close() of a theory without `!` allocated ids or increased the number of elements"]})
 
+(* ---------- C03 / C07 / C17: histories of one family reach the same model ---------- *)
+\* members of a family assert the same facts and equalities about the same caller-created elements;
+\* their final models must be isomorphic by a map fixing those elements
+FamBad(e) ==
+  LET O == Obs(e.st)
+      prop == IF e.tag = "fam:C07" THEN "C07" ELSE IF e.tag = "fam:C17" THEN "C17" ELSE "C03"
+  IN IF ~famFirst.set \/ famFirst.fam # e.fam \/ famFirst.gens # callers THEN {}
+     ELSE LET P == Phi(famFirst.nf, O, famFirst.gens) IN
+          { [prop |-> prop, what |-> "differs from the first history of its family: " \o w] :
+              w \in CompleteBad(famFirst.nf, O, P) \cup SoundBad(famFirst.nf, O, P) }
+RecloseBad(e) == IF e.tag = "reclose" /\ ~e.ret /\ Obs(e.st) # prev
+                 THEN {[prop |-> "C03", what |-> "close() on a closed model changed it"]} ELSE {}
+IsFamTag(t) == t \in {"fam:C03", "fam:C07", "fam:C17"}
+
 Init == /\ l = 1 /\ ref = EmptyPres /\ prev = EmptyObs /\ eqSince = FALSE
         /\ chase = [nf |-> NF(EmptyPres), done |-> TRUE] /\ gens = [T \in Types |-> {}]
         /\ cnt0 = [T \in Types |-> 0] /\ cls0 = [T \in Types |-> 0]
         /\ lastObs = [k |-> -1, cond |-> FALSE, O |-> EmptyObs] /\ viol = {}
-        /\ stats = [closes |-> 0, inconclusive |-> 0, obs |-> 0, histories |-> 0, budget |-> 0]
+        /\ stats = [closes |-> 0, inconclusive |-> 0, obs |-> 0, histories |-> 0, budget |-> 0, famCompared |-> 0, famSkipped |-> 0]
+        /\ callers = [T \in Types |-> {}]
+        /\ famFirst = [fam |-> -1, set |-> FALSE, nf |-> NF(EmptyPres), gens |-> [T \in Types |-> {}]]
 
 Tag(e, S) == { [prop |-> v.prop, what |-> v.what, line |-> l, id |-> e.id] : v \in S }
 AddViol(e, S) == IF Cardinality(viol) < 40 THEN viol \cup Tag(e, S) ELSE viol
@@ -224,21 +243,24 @@ Step ==
      CASE e.ev = "reset" ->
             /\ ref' = EmptyPres /\ prev' = Obs(e.st) /\ eqSince' = FALSE
             /\ stats' = [stats EXCEPT !.histories = @ + 1]
+            /\ callers' = [T \in Types |-> {}]
+            /\ famFirst' = IF e.fam = famFirst.fam THEN famFirst ELSE [famFirst EXCEPT !.fam = e.fam, !.set = FALSE]
             /\ UNCHANGED <<chase, gens, cnt0, cls0, lastObs, viol>>
        [] e.ev \in {"panic", "budget"} ->
             /\ viol' = IF e.ev = "panic" THEN AddViol(e, {[prop |-> "PANIC", what |-> "panic: " \o e.msg]}) ELSE viol
             /\ stats' = IF e.ev = "budget" THEN [stats EXCEPT !.budget = @ + 1] ELSE stats
-            /\ UNCHANGED <<ref, prev, eqSince, chase, gens, cnt0, cls0, lastObs>>
+            /\ UNCHANGED <<ref, prev, eqSince, chase, gens, cnt0, cls0, lastObs, callers, famFirst>>
        [] e.ev = "new" ->
             /\ viol' = AddViol(e, NewBad(e) \cup DumpConsistent(e.st))
             /\ ref' = [ref EXCEPT !.els[e.ty] = @ \cup {G(e.ret)}]
             /\ prev' = Obs(e.st)
-            /\ UNCHANGED <<eqSince, chase, gens, cnt0, cls0, lastObs, stats>>
+            /\ callers' = [callers EXCEPT ![e.ty] = @ \cup {e.ret}]
+            /\ UNCHANGED <<eqSince, chase, gens, cnt0, cls0, lastObs, stats, famFirst>>
        [] e.ev = "insert" ->
             /\ viol' = AddViol(e, InsertBad(e) \cup DumpConsistent(e.st))
             /\ ref' = [ref EXCEPT !.tup = @ \cup {<<e.rel, GT(e.args)>>}]
             /\ prev' = Obs(e.st)
-            /\ UNCHANGED <<eqSince, chase, gens, cnt0, cls0, lastObs, stats>>
+            /\ UNCHANGED <<eqSince, chase, gens, cnt0, cls0, lastObs, stats, callers, famFirst>>
        [] e.ev \in {"define", "new_enum"} ->
             LET f == IF e.ev = "define" THEN e.rel ELSE e.ctor
                 e2 == [rel |-> f, args |-> e.args, ret |-> e.ret, st |-> e.st] IN
@@ -246,29 +268,36 @@ Step ==
                                   \cup (IF e.ev = "new_enum" /\ ~eqSince THEN { [prop |-> "C15", what |-> w] : w \in EnumBad(e.st) } ELSE {}))
             /\ ref' = [ref EXCEPT !.els[ResT(f)] = @ \cup {G(e.ret)}, !.tup = @ \cup {<<f, GT(e.args \o <<e.ret>>)>>}]
             /\ prev' = Obs(e.st)
-            /\ UNCHANGED <<eqSince, chase, gens, cnt0, cls0, lastObs, stats>>
+            /\ callers' = [callers EXCEPT ![ResT(f)] = @ \cup {e.ret}]
+            /\ UNCHANGED <<eqSince, chase, gens, cnt0, cls0, lastObs, stats, famFirst>>
        [] e.ev = "equate" ->
             /\ viol' = AddViol(e, EquateBad(e) \cup DumpConsistent(e.st))
             /\ ref' = [ref EXCEPT !.eq = @ \cup {<<e.ty, G(e.a), G(e.b)>>}]
             /\ prev' = Obs(e.st) /\ eqSince' = TRUE
-            /\ UNCHANGED <<chase, gens, cnt0, cls0, lastObs, stats>>
+            /\ UNCHANGED <<chase, gens, cnt0, cls0, lastObs, stats, callers, famFirst>>
        [] e.ev = "close_begin" ->
             /\ chase' = LET c == ChaseN(ref, 60) IN [nf |-> NF(c.R), done |-> c.done]
             /\ gens' = GensOf(prev)
             /\ cnt0' = prev.cnt /\ cls0' = [T \in Types |-> Classes(prev, T)]
             /\ lastObs' = [k |-> -1, cond |-> FALSE, O |-> EmptyObs]
-            /\ UNCHANGED <<ref, prev, eqSince, viol, stats>>
+            /\ UNCHANGED <<ref, prev, eqSince, viol, stats, callers, famFirst>>
        [] e.ev = "obs" ->
             /\ viol' = AddViol(e, ObsBad(e) \cup DumpConsistent(e.st))
             /\ lastObs' = [k |-> e.k, cond |-> e.cond, O |-> Obs(e.st)]
             /\ stats' = [stats EXCEPT !.obs = @ + 1]
-            /\ UNCHANGED <<ref, prev, eqSince, chase, gens, cnt0, cls0>>
+            /\ UNCHANGED <<ref, prev, eqSince, chase, gens, cnt0, cls0, callers, famFirst>>
        [] e.ev = "close_ret" ->
-            /\ viol' = AddViol(e, RetBad(e) \cup DumpConsistent(e.st))
+            LET isFam == IsFamTag(e.tag) /\ ~e.ret
+                first == isFam /\ ~(famFirst.set /\ famFirst.fam = e.fam)
+                compared == isFam /\ ~first /\ famFirst.gens = callers IN
+            /\ viol' = AddViol(e, RetBad(e) \cup DumpConsistent(e.st) \cup RecloseBad(e) \cup (IF isFam THEN FamBad(e) ELSE {}))
             /\ ref' = Absorb(ref, Obs(e.st))
             /\ prev' = Obs(e.st) /\ eqSince' = FALSE
-            /\ stats' = [stats EXCEPT !.closes = @ + 1, !.inconclusive = @ + (IF chase.done THEN 0 ELSE 1)]
-            /\ UNCHANGED <<chase, gens, cnt0, cls0, lastObs>>
+            /\ famFirst' = IF first THEN [fam |-> e.fam, set |-> TRUE, nf |-> NF(OfObserved(Obs(e.st))), gens |-> callers] ELSE famFirst
+            /\ stats' = [stats EXCEPT !.closes = @ + 1, !.inconclusive = @ + (IF chase.done THEN 0 ELSE 1),
+                                      !.famCompared = @ + (IF compared THEN 1 ELSE 0),
+                                      !.famSkipped = @ + (IF isFam /\ ~first /\ ~compared THEN 1 ELSE 0)]
+            /\ UNCHANGED <<chase, gens, cnt0, cls0, lastObs, callers>>
 Spec == Init /\ [][Step]_vars
 Report == (l = Len(Rec) + 1) => PrintT(<<"RESULT", ToJson([viol |-> viol, stats |-> stats, events |-> Len(Rec)])>>)
 AllConsumed == TLCGet("stats").diameter = Len(Rec) + 1 \/ PrintT(<<"UNMATCHED", TLCGet("stats").diameter>>)
